@@ -390,7 +390,7 @@ def run_ranges(params, known):
 # (b) reassembly state graph
 
 T1 = bytes(range(0x41, 0x47))          # transfer 1: ABCDEF in 3 segments
-T2 = bytes(range(0x61, 0x65))          # transfer 2: abcd in 2 segments
+T2 = b'a\x00c\x00'                   # transfer 2 in 2 segments, each slice ending in a zero octet (looks like padding)
 T1P = bytes(range(0x30, 0x36))         # transfer id 1 again, from another peer
 WHOLE = bundle_like(9, seed=5)
 
